@@ -1,5 +1,6 @@
 import KcpVerif.Model.Kcp
 import KcpVerif.Lemmas.C01Ops
+import KcpVerif.Lemmas.C01Sys
 /-!
 C01 — reliable ordered stream: the reader sees a prefix of what was written.
 Protocol-core part (`C01_core`, DESIGN.md 7.1 items 1–4) on the model `Model/Kcp.lean` of kcp.go.
@@ -12,7 +13,7 @@ datagrams, truncate them, glue them together, and forge every ACK / WASK / WINS 
 header field of a PUSH segment other than `(sn, frg, len, payload)`.
 -/
 namespace KcpVerif.Props
-open KcpVerif KcpVerif.Gen KcpVerif.Kcp KcpVerif.Frame KcpVerif.Recv KcpVerif.C01
+open KcpVerif KcpVerif.Gen KcpVerif.Kcp KcpVerif.Frame KcpVerif.Recv KcpVerif.Send KcpVerif.Wire KcpVerif.C01
 
 /-- `Recv` returns exactly the bytes `PeekSize` announced: the merge loop pops the fragments that
 `peekSum` summed (up to and including the first `frg = 0`). -/
@@ -119,5 +120,76 @@ example : Fresh (Kcp.new 7) ∧ (∀ op ∈ C01_exOps, OpGenuine C01_exG (Kcp.ne
   intro i hi
   have : i = 0 ∨ i = 1 ∨ i = 2 := by omega
   rcases this with h | h | h <;> subst h <;> decide
+
+/-! ## Send side (items 1–2) -/
+
+/-- **Send-side invariant in every reachable state**, for ANY sequence of operations with arbitrary
+arguments (all byte strings for `input`: forged ACKs and UNAs included).  With `L` the ghost log of
+the contents of the segments `admitSegs` has numbered so far: `snd_nxt = sn0 + |L|`; for some `a`,
+`snd_una = sn0 + a`, `snd_buf` has `|L| − a` entries with sequence numbers `sn0+a, sn0+a+1, …`
+consecutively, and every entry not yet acknowledged carries `(frg, data) = L[sn − sn0]`; queued and
+buffered payloads fit a pool buffer. -/
+theorem C01_send_invariant (k0 : Kcp) (hf : Fresh k0) (ops : List Op) :
+    InvS k0.snd_nxt (run { k := k0 } ops).k (run { k := k0 } ops).log :=
+  (run_invSG ops { k := k0 } (fresh_invSG k0 hf)).1.inv
+
+/-- **The log only grows** (numbered segments are immutable: the stream-mode append of `Send` only
+touches the last element of `snd_queue`, never a numbered segment). -/
+theorem C01_log_monotone (s : GSt) (sn0 : U32) (h : InvSG sn0 s) (ops : List Op) :
+    ∃ X, (run s ops).log = s.log ++ X := (run_invSG ops s h).2
+
+/-- **Header round trip**: the field reads of the peer's `Input` loop give back exactly what
+`segment.encode` wrote (the length as a `uint32`), whatever bytes follow. -/
+theorem C01_hdr_roundtrip (conv : U32) (cmd frg : BitVec 8) (wnd : BitVec 16) (ts sn una : U32) (len : Nat)
+    (rest : Bytes) :
+    parseHdr (encodeHdr conv cmd frg wnd ts sn una len ++ rest) = ⟨conv, cmd, frg, wnd, ts, sn, una, len % 2 ^ 32⟩ :=
+  hdr_roundtrip conv cmd frg wnd ts sn una len rest
+
+/-- **Wire genuineness, byte level.**  Every datagram this endpoint has ever handed to `output` — from
+`flush`, `update` or the flush inside `input` — is a concatenation of frames `encodeHdr … ++ data`
+in which every PUSH frame has `(frg, data) = L[sn − sn0]` and every payload fits a pool buffer; parsed
+by the peer's `Input` loop (any `conv`) it satisfies the receive side's premise `GenuineIn G` for
+every content function `G` that agrees with the log — so the premise of `C01_recv_in_order` is
+discharged by what the endpoint really emits. -/
+theorem C01_wire_genuine (k0 : Kcp) (hf : Fresh k0) (ops : List Op) (G : U32 → Content)
+    (hG : Agree G k0.snd_nxt (run { k := k0 } ops).log) (conv : U32) :
+    ∀ o ∈ (run { k := k0 } ops).wire, Framed G o ∧ GenuineIn G conv o := by
+  intro o ho
+  have h := (run_invSG ops { k := k0 } (fresh_invSG k0 hf)).1.wire G hG o ho
+  exact ⟨h, h.genuineIn conv⟩
+
+/-- the canonical content function `G sn := L[sn − sn0]` agrees with the log while it has at most
+2^32 entries (the range hypothesis of item 4 in its weakest form) -/
+theorem C01_gOf_agree (sn0 : U32) (L : List Content) (h : L.length ≤ 2 ^ 32) : Agree (gOf sn0 L) sn0 L :=
+  gOf_agree sn0 L h
+
+/-! ## Composition (`C01_core`) -/
+
+/-- **Core safety, composed.**  Two fresh cores `A` (writer) and `B` (reader) whose initial sequence
+numbers match (`Kcp.new` on both sides, or any common offset — C12), any configuration on either
+side, ANY interleaving of: arbitrary operations of `A` (including `input` of arbitrary bytes, e.g.
+everything `B` emits, forged or not), arbitrary non-`input` operations of `B`, and deliveries to `B`
+of any datagram `A` has emitted so far — any later time, any number of times, any order, or never.
+Range hypothesis (explicit, decidable on the run): `A` has numbered at most 2^32 segments and `B` has
+delivered at most 2^32.  Then the bytes `B`'s reader has been given, concatenated, are a prefix of
+the payload bytes `A` has numbered, in order: `bytes (L.take m)` for the `m` segments delivered. -/
+theorem C01_core_partial (kA kB : Kcp) (hA : Fresh kA) (hB : Fresh kB) (hsn : kB.rcv_nxt = kA.snd_nxt)
+    (ops : List SOp)
+    (hLa : (srun ⟨{ k := kA }, { k := kB }⟩ ops).A.log.length ≤ 2 ^ 32)
+    (hLb : (srun ⟨{ k := kA }, { k := kB }⟩ ops).B.dl.length ≤ 2 ^ 32) :
+    (srun ⟨{ k := kA }, { k := kB }⟩ ops).B.got.flatten =
+        bytesOf ((srun ⟨{ k := kA }, { k := kB }⟩ ops).A.log.take (srun ⟨{ k := kA }, { k := kB }⟩ ops).B.dl.length) ∧
+      (srun ⟨{ k := kA }, { k := kB }⟩ ops).B.got.flatten <+: bytesOf (srun ⟨{ k := kA }, { k := kB }⟩ ops).A.log := by
+  have hinv := srun_inv ops _ (fresh_sysInv kA kB hA hB hsn)
+  generalize srun ⟨{ k := kA }, { k := kB }⟩ ops = s at hinv hLa hLb
+  obtain ⟨n, hn⟩ := hinv.rcv (gOf kA.snd_nxt s.A.log) (gOf_agree _ _ hLa)
+  have hc := hn.inv.count
+  have hd : s.B.dl = gRange (gOf kA.snd_nxt s.A.log) kA.snd_nxt s.B.dl.length := by
+    rw [← gRange_take _ kA.snd_nxt n _ (by omega), ← hn.inv.pre, List.take_left]
+  have e : s.B.got.flatten = bytesOf (s.A.log.take s.B.dl.length) := by
+    rw [hn.got]
+    conv => lhs; rw [hd]
+    exact bytesOf_gRange_gOf _ _ _ hLb
+  exact ⟨e, by rw [e]; exact bytesOf_take_prefix _ _⟩
 
 end KcpVerif.Props
